@@ -58,6 +58,12 @@ def worker(args):
             from .gen import config as _gc
             if _gc.LAYOUT_COUNTS:
                 ctx.extra["snapshot_layouts"] = dict(_gc.LAYOUT_COUNTS)   # snapshots handed over per in-memory representation
+            try:
+                from .props import C06 as _c06
+                if _c06.ROW_ORDER_COUNTS:
+                    ctx.extra["neighbour_files_written_by_the_harness"] = dict(_c06.ROW_ORDER_COUNTS)
+            except Exception:  # noqa: BLE001
+                pass
             if _gc.UNWRAP_COUNTS:
                 ctx.extra["unwrapped_coordinates"] = dict(_gc.UNWRAP_COUNTS)
             if _gc.BIG_COUNTS:
